@@ -160,6 +160,8 @@ class History:
             self._op_throttle(*op[1:])
         elif kind == "inject":
             self._op_inject(*op[1:])
+        elif kind == "relocate":
+            self._op_relocate(*op[1:])
         elif kind == "retain":
             self._op_retain()
         elif kind == "branch":
@@ -449,6 +451,40 @@ class History:
         self.rp = self.rp._replace(s=res.unwrap())
         self.stats["requests_injected"] += 1
         self.flag("request_injected")
+
+    def _op_relocate(self, which: int, esel: int, site_sel: int) -> None:
+        """co-simulation style entity editing: hand HIVE a station / base whose position differs from the registered one
+        (a client that re-surveyed it) through the public modify_*_safe API. Whatever HIVE answers is adopted: a refusal
+        leaves the state alone, an acceptance becomes the state every monitor judges from then on."""
+        import dataclasses
+
+        import h3
+        from returns.result import Success
+        from nrel.hive.state.simulation_state import simulation_state_ops as ops
+        from hv.worlds import _site
+
+        sim = self.sim
+        pool = sim.stations if which % 2 == 0 else sim.bases
+        ids = sorted(pool.keys())
+        if not ids:
+            return
+        e = pool[ids[esel % len(ids)]]
+        sites = self.spec["sites"]
+        g = h3.geo_to_h3(*_site(self.spec, site_sel % len(sites)), 15)
+        moved = dataclasses.replace(e, position=sim.road_network.position_from_geoid(g))
+        if moved.geoid == e.geoid:
+            return
+        try:
+            with quiet():
+                res = (ops.modify_station_safe if which % 2 == 0 else ops.modify_base_safe)(sim, moved)
+        except Exception as exc:
+            self._crashed(exc)
+            return
+        self.stats["relocations_tried"] += 1
+        if isinstance(res, Success):
+            self.rp = self.rp._replace(s=res.unwrap())
+            self.stats["relocations_accepted"] += 1
+            self.flag("entity_relocated")
 
     def _op_retain(self) -> None:
         from hv.canon import fingerprint
